@@ -2,8 +2,10 @@
    Only statements; proofs by reference.  Model: model/Ingest.v (per-column buffers of one insert worker, the six
    ProcessRequest closures), model/PushHandler.v (all workers and handlers); monitor: model/IngestSpec.v smon_step. *)
 From Coq Require Import List NArith ZArith Bool.
+From Qryn Require Import model.IngestRobust model.IngestPipe proofs.IngestPipeProofs.   (* C05's count-level parser pipeline; first: C02's names win *)
 From Qryn Require Import model.Ingest model.PushHandler model.IngestSpec model.IngestFresh proofs.IngestBase proofs.IngestAck
-  proofs.IngestSpecProofs proofs.IngestPromises model.IngestSched model.PushConfirm proofs.IngestShapes.
+  proofs.IngestSpecProofs proofs.IngestPromises model.IngestSched model.PushConfirm proofs.IngestShapes
+  model.IngestBridge proofs.IngestBridgeProofs.
 Import ListNotations.
 
 (* If every submitted request is the table of its rows, then for every configuration and every interleaving each
@@ -142,3 +144,74 @@ Proof.
   exact (wf_requests_are_live k r H).
 Qed.
 Print Assumptions tables_reach_no_panic.
+
+(* ---- the parsers' side: "submitted requests are tables" is discharged for the pushes the routes produce ------------------
+
+   model/IngestBridge.v runs the REGENERATED append programs of the batching handlers (onSpan, onEntries: the handler_prog /
+   entries_prog of C05's model/IngestPipe.v; onProfile) at cell level: every appended element carries the identity of the
+   submitted row it was computed from (a call of onSpan; a (call, attribute index); position i of the parallel slices of one
+   call of onEntries; an announced series; a call of onProfile), slice fields become INSERT columns through kind_fields (the
+   field ProcessRequest reads per column, in serialize()/toIFace() order: regenerated from writer/service/impl and compared
+   on every run), and what the parser goroutine sends becomes the item list of a push.
+
+   Every request the parser goroutine of ANY route sends, for every stream of decoder events (any id widths, keys, values,
+   sizes, flushes; decoder errors and panics anywhere), is the table of its rows -- the decoders keeping their side of
+   onEntries' contract (the four slices of one call have one length; C05: entries_call_allow).  This is wf_reqb, the
+   hypothesis of blocks_good / ack_sound. *)
+Theorem parser_requests_are_tables : forall x, parsed_ok x = true -> forallb item_wf (items_of_model x) = true.
+Proof. exact (items_of_wf _ _ _ _ _ _ bridge_model_ok). Qed.
+Print Assumptions parser_requests_are_tables.
+
+(* END TO END: for every configuration and every interleaving in which every arriving push is what the parser goroutine of
+   some route sends for some stream of decoder events (act_parsed: no hypothesis on the requests), every block handed to
+   ClickHouse is the table of the rows of exactly its waiters (blocks_good) and the column-wise concatenation of exactly
+   their appends, released with that block's outcome (block_carries_its_waiters). *)
+Theorem parsed_pushes_give_good_blocks : forall cfg n tr g es,
+  Forall (act_parsed on_span_cols_model spans_fields_model attrs_fields_model on_entries_cols_model spl_fields_model tsd_fields_model) tr ->
+  grun (ginit cfg n) tr = Some (g, es) ->
+  run_mon (smon_step MTable) (smon_init (length cfg)) es <> None /\
+  run_mon (smon_step MClean) (smon_init (length cfg)) es <> None.
+Proof. exact (parsed_pushes_good _ _ _ _ _ _ bridge_model_ok). Qed.
+Print Assumptions parsed_pushes_give_good_blocks.
+
+(* ... for ANY append programs that pass the check the regenerated ones are put through on every run (bridge_ok: every
+   slice field of the request structs appended exactly once per row, flush resets the batch, every field ProcessRequest
+   reads exists). *)
+Theorem checked_parsers_give_good_blocks : forall h sf af p lf tf, bridge_ok h sf af p lf tf = true ->
+  forall cfg n tr g es, Forall (act_parsed h sf af p lf tf) tr -> grun (ginit cfg n) tr = Some (g, es) ->
+  run_mon (smon_step MTable) (smon_init (length cfg)) es <> None /\
+  run_mon (smon_step MClean) (smon_init (length cfg)) es <> None.
+Proof. exact parsed_pushes_good. Qed.
+Print Assumptions checked_parsers_give_good_blocks.
+
+(* The cell-level runs refine C05's count-level runs: with the row identities erased they ARE the runs whose batches C05's
+   theorems (batches_are_rectangular, log_batches_are_rectangular) are about and C05's harness compares with the real
+   onSpan / onEntries; the chunks of a push are exactly its sent batches. *)
+Theorem cell_level_refines_count_level :
+  (forall h sf af evs b, sent_batches h sf af (abs_cb b) evs = map abs_cb (sent_cbatches h sf af b evs)) /\
+  (forall p sf tf evs b, sent_lbatches p sf tf (abs_cl b) evs = map abs_cl (sent_clbatches p sf tf b evs)) /\
+  (forall h sf af w evs b, filter is_chunk (span_items h sf af w b evs) = map (span_chunk w) (sent_cbatches h sf af b evs)) /\
+  (forall p sf tf w evs b, filter is_chunk (logs_items p sf tf w b evs) = map (logs_chunk w) (sent_clbatches p sf tf b evs)).
+Proof.
+  split; [exact sent_batches_abs|]. split; [exact sent_lbatches_abs|]. split; [exact span_items_chunks|exact logs_items_chunks].
+Qed.
+Print Assumptions cell_level_refines_count_level.
+
+(* The rows of a span push are drawn from a counter no flush resets: in every batch the parser sends, all slice fields of
+   TempoSamples hold the same rows, all of TempoTag the same rows, and these rows are pairwise different (so the chunks of
+   one push never share a row -- what fresh_run asks of a push). *)
+Theorem span_batches_hold_distinct_whole_rows : forall h sf af cs ca, handler_ok h sf af cs ca = true ->
+  forall evs first, Forall (cb_inv sf af) (sent_cbatches h sf af (cbatch0 sf af first) evs).
+Proof. intros h sf af cs ca H evs first. apply (sent_cbatches_inv h sf af cs ca H). apply cbatch0_inv. Qed.
+Print Assumptions span_batches_hold_distinct_whole_rows.
+
+(* The contract of onEntries cannot be dropped (one message more than timestamps: the samples request is not a table), and
+   a profile request of two rows would not be a table either (the five array columns get ONE element per request): the
+   pprof decoders call onProfile once (C05: profile_requests_carry_one_row). *)
+Theorem parser_tables_need_the_decoder_contract_refuted :
+  ~ (forall x, forallb item_wf (items_of_model x) = true) /\ wf_reqb KProfile (req_of KProfile (prof_fcols 0 2)) = false.
+Proof.
+  split; [|exact two_profiles_are_not_a_table]. intros H.
+  pose proof (H (PLogs demo_wiring 0 [LcEntries unequal_event])) as X. rewrite unequal_slices_tear_the_request in X. discriminate.
+Qed.
+Print Assumptions parser_tables_need_the_decoder_contract_refuted.
